@@ -93,6 +93,19 @@ CLAIMS = {
               "not parseable and is skipped for the text comparison."),
         technique="Lean 4 proof (round-trip and invariant lemmas over abstract JSON) + exhaustive command x format differential runs",
         ref="DESIGN.md §3 C06"),
+    "C09": dict(
+        text=("Kernel-checked theorems about the path arithmetic of every exclusion / ignore / exemption site: built-in exclusion, "
+              "the path handed to repository ignore patterns and path-string exemptions are functions of the path inside the project "
+              "for every location of the project (hardExcluded_relocate, checkPath_relocate, markerHit_relocate), with a decided "
+              "witness that a full-path substring test does depend on the location. The modelled functions are run against /repo's "
+              "(_directory_parts_in_project, _is_hardcoded_excluded, path_in_project) on generated (root, file) pairs, and the whole "
+              "tool is run on one project under every excluded-directory name and test/ignore marker x 6 path spellings x every "
+              "command (thorough: exhaustive, 3120 runs). Four genuine defects repaired (fix: bd0e3d3, 890ad2f, a20090b)."),
+        note=("pathlib.resolve, os.walk and cwd handling are observed, not modelled; a parent directory literally named .git/.svn/.hg "
+              "changes what the marker search calls the project root and is out of scope; user-configured per-linter ignore patterns "
+              "(substring semantics) are not exercised here."),
+        technique="Lean 4 proof (list prefix / suffix lemmas on component paths) + exhaustive relocation x spelling x command matrix",
+        ref="DESIGN.md §3 C09"),
 }
 ALL = [f"C{n:02d}" for n in range(1, 21)]
 NOT_YET = "machinery for this property is not built yet in this revision of /verif (planned, see DESIGN.md §3); not claimed"
